@@ -45,7 +45,7 @@ CFG = {
                       "u64::MAX (BlockNumber::next panics on overflow); (6) durable storage itself is the harness's "
                       "stub (in_memory::Engine rules).",
         "harness": "c08",
-        "n": {"quick": 7000, "thorough": 250000},
+        "n": {"quick": 7000, "thorough": 120000},
         "timeout": {"quick": 900, "thorough": 7200},
         "rule": "operation sequences (cases of 10-300 ops, each starting with init on a random durable range): directed "
                 "families — in order, out of order + duplicates, substitution attempts with a second valid chain and "
